@@ -42,7 +42,7 @@ def present(r, v):
 
 
 JSONOPTS = ['none', 'none', '0:%s:1' % hx(' '), '20:%s:1' % hx('  '), '80:%s:0' % hx('\t'), '0:%s:0' % hx(' ')]
-BAD = ['', '{', '{"a":1,}', '{"a":1}{"b":2}', 'nul', '[1,2', '{"a":"\x01"}', '{a:1}', "{'a':1}", '[1 2]', '{"a" 1}', 'tru']
+BAD = ['\ufeff{"a": 1}', '\ufeff[1, 2]', '', '{', '{"a":1,}', '{"a":1}{"b":2}', 'nul', '[1,2', '{"a":"\x01"}', '{a:1}', "{'a':1}", '[1 2]', '{"a" 1}', 'tru']
 
 
 def make_world(g, tag):
@@ -208,6 +208,51 @@ def make_world(g, tag):
 
 SPECIAL = ['$1', '${1}x', '$name', 'cost: $100', '$$', '50% off', '%s %d %v', 'back\\slash', '\\1 \\0', '&amp;', '$0', 'US$1 ${x}', '$', '%',
            '$10.50 (${currency})', '\\$1', '%!s(MISSING)', '{{.}}', '#{x}', '\u0000'.replace('0000', '0041'), '---', '[TestU1 - 1]']
+
+
+def sortkeys_pair_worlds():
+    """two Configs with the same Width and Indent that differ in SortKeys only, the non-sorting one used first (and the
+    other way round): each call is formatted by the options of ITS Config"""
+    worlds = []
+    doc = '{"zeta": 1, "alpha": {"y": 2, "x": 1}, "mid": [{"b": 1, "a": 2}]}'
+    k = 0
+    for width, indent in ((0, ' '), (80, '  '), (20, '\t')):
+        for first in (0, 1):
+            for kind in ('json', 'sajson'):
+                k += 1
+                w = World('c14-sortpair-%d' % k)
+                w.add(mode_line(False, ''))
+                opts = {0: '%d:%s:0' % (width, hx(indent)), 1: '%d:%s:1' % (width, hx(indent))}
+                w.add(cfg_line(1, 'snaps', 'first', None, 'none', opts[first]))
+                w.add(cfg_line(2, 'snaps', 'second', None, 'none', opts[1 - first]))
+                w.add('begin 1 %s' % hx(b'TestSortPair'))
+                w.add('%s 1 1 s %s' % (kind, hx(doc)))
+                w.add('%s 2 1 s %s' % (kind, hx(doc)))
+                w.add('end 1')
+
+                def oracle(line, raw, ww, first=first, kind=kind):
+                    fs0 = parse_fs(raw)
+                    for fname, sorted_ in (('first', first == 1), ('second', first == 0)):
+                        if kind == 'json':
+                            pp = [x for x in fs0 if x.endswith(('/%s.snap' % fname).encode())]
+                            body = dict(parse_snap(fs0[pp[0]]) or []).get(b'TestSortPair - 1') if pp else None
+                        else:
+                            bodies = [fs0[x] for x in fs0 if ('/%s_1.snap' % fname).encode() in x]
+                            body = bodies[0] if bodies else None
+                        if body is None:
+                            return 'no snapshot through the Config with file name %r' % fname
+                        order = [m_ for m_ in ('zeta', 'alpha', 'mid') if ('"%s"' % m_).encode() in body]
+                        pos = {m_: body.index(('"%s"' % m_).encode()) for m_ in order}
+                        got_sorted = pos['alpha'] < pos['mid'] < pos['zeta']
+                        got_input = pos['zeta'] < pos['alpha'] < pos['mid']
+                        if sorted_ and not got_sorted:
+                            return 'the Config with SortKeys stored the members unsorted: %r' % body[:120]
+                        if not sorted_ and not got_input:
+                            return 'the Config without SortKeys did not keep the member order: %r' % body[:120]
+                    return None
+                w.add('fsdump', ('each-config-formats-with-its-own-options', oracle))
+                worlds.append(w)
+    return worlds
 
 
 def update_world(g, tag):
@@ -445,5 +490,6 @@ def run(ctx):
     n = 300 if ctx.tier == 'quick' else 8000
     worlds = [make_world(g, 'c14-%d' % i) for i in range(n)]
     worlds += [update_world(g, 'c14-upd-%d' % i) for i in range(60 if ctx.tier == 'quick' else 1500)]
+    worlds += sortkeys_pair_worlds()
     run_suite(ctx, 'json.canonical', worlds, known=None, chunk=400)
     findings.report(ctx, 'C14')
